@@ -518,6 +518,21 @@ def polyhedron_vs_polyhedron(draw, K, recipe):
         K2 = X.make_K([X.add(c, X.mul(F(1, 2), X.sub(p, c))) for p in pts])
         assume(_ok_K(K2))
         return K2
+    if recipe == "inscribed":
+        # a body spanned by points of K's boundary (vertices, edge and face points) and possibly interior points:
+        # it lies inside K and touches K's boundary from the inside at vertices, along edges or in faces
+        m = draw(st.integers(4, 6))
+        kinds = [draw(st.sampled_from(("V", "E", "F", "F", "I"))) for _ in range(m)]
+        kinds[0] = draw(st.sampled_from(("V", "E", "F")))
+        q = []
+        for ft in kinds:
+            x = draw(feature_point(K, ft))
+            if tuple(x) not in [tuple(y) for y in q]:
+                q.append(x)
+        assume(len(q) >= 4)
+        K2 = X.make_K(q)
+        assume(_ok_K(K2))
+        return K2
     if recipe == "independent":
         return draw(polyhedron())
     raise ValueError(recipe)
